@@ -59,7 +59,7 @@ type Walker struct {
 	Undecided []string
 	memo      map[string]bool
 	inSplit   map[*ssa.Function]bool
-	inRetSplit map[*ssa.Function]bool
+	inRetSplit map[*ssa.Function]int // number of return-site splits already chosen for the function (at most 2 nest)
 	entry     string
 	Visited   map[*ssa.Function]bool
 	Paths     int
@@ -80,7 +80,7 @@ type Walker struct {
 }
 
 func (a *Analyzer) NewWalker(on func(e *Effect)) *Walker {
-	return &Walker{A: a, OnEffect: on, MaxDepth: 24, memo: map[string]bool{}, inSplit: map[*ssa.Function]bool{}, inRetSplit: map[*ssa.Function]bool{}, Visited: map[*ssa.Function]bool{}, NoDescend: map[string]bool{}}
+	return &Walker{A: a, OnEffect: on, MaxDepth: 24, memo: map[string]bool{}, inSplit: map[*ssa.Function]bool{}, inRetSplit: map[*ssa.Function]int{}, Visited: map[*ssa.Function]bool{}, NoDescend: map[string]bool{}}
 }
 
 func envKey(env map[ssa.Value]*Term, fn *ssa.Function) string {
@@ -295,12 +295,12 @@ func (w *Walker) visit(fn *ssa.Function, env map[ssa.Value]*Term, init Facts, pa
 		}
 	}
 	// return-site split: a call to an effectful helper with several successful outcomes is explored once per outcome
-	if w.AutoSplit && !w.inRetSplit[fn] {
+	if w.AutoSplit && w.inRetSplit[fn] < 2 {
 		if call, rets := w.splitCall(fn); call != nil {
 			if os.Getenv("LH_DEBUG_SPLITS") != "" {
 				fmt.Fprintf(os.Stderr, "return-site split in %s at %s: %d outcomes\n", funcID(fn), w.A.P.InstrPos(call), len(rets))
 			}
-			w.inRetSplit[fn] = true
+			w.inRetSplit[fn]++
 			for i, r := range rets {
 				if w.retChoice == nil {
 					w.retChoice = map[ssa.Instruction]*ssa.Return{}
@@ -313,7 +313,7 @@ func (w *Walker) visit(fn *ssa.Function, env map[ssa.Value]*Term, init Facts, pa
 				w.splits = w.splits[:len(w.splits)-1]
 			}
 			delete(w.retChoice, call)
-			delete(w.inRetSplit, fn)
+			w.inRetSplit[fn]--
 			return
 		}
 	}
@@ -701,6 +701,9 @@ func (w *Walker) splitCall(fn *ssa.Function) (ssa.Instruction, []*ssa.Return) {
 			if !ok {
 				continue
 			}
+			if _, chosen := w.retChoice[in]; chosen {
+				continue
+			}
 			g := call.Call.StaticCallee()
 			if g == nil || g.Blocks == nil || !inLibraryScope(funcPkgPath(g)) || isSpecTypesPkg(funcPkgPath(g)) {
 				continue
@@ -763,7 +766,7 @@ func (w *Walker) splitCall(fn *ssa.Function) (ssa.Instruction, []*ssa.Return) {
 				switch sm.resKind {
 				case "error":
 					// (a delegated verdict `return check(..)` is a possibly-successful site: explored with check(..) == nil assumed)
-					delegated := rt.Op == "call" && !isErrCtor(rt) && wrappedErr(rt) == nil && a.calleeOf(rt) != nil
+					delegated := false // (exploring delegated verdict sites as outcomes made other summaries coarser: not done)
 					failing = isErrCtor(rt) || (rt.Key() != tNil.Key() && rt.Op != "phi" && !delegated && !(wrappedErr(rt) != nil && wrappedErr(rt).Key() == tNil.Key()))
 				case "bool":
 					failing = rt.Key() == tFalse.Key()
@@ -782,7 +785,7 @@ func (w *Walker) splitCall(fn *ssa.Function) (ssa.Instruction, []*ssa.Return) {
 			}
 			// several successful return sites: with different values (extract-method returning results), or - for a
 			// verdict-only helper - reached under different conditions ("not my business" vs "checked and fine")
-			if len(succ) < 2 || len(succ) > 4 || (len(vals) < 2 && g.Signature.Results().Len() > 1) {
+			if len(succ) < 2 || len(vals) < 2 || len(succ) > 4 {
 				continue
 			}
 			if pureHelper && g.Signature.Results().Len() > 1 {
